@@ -162,6 +162,54 @@ def describe(pk):
     return "%s%s id=%d%s" % (t, "/" + "/".join(f) if f else "", pk.packet_id, " frag=%d len=%d" % (pk.fragment_id, len(pk.payload)) if pk.type == 2 and not pk.flags & 0x201 else "")
 
 
+def install_network(sim, cs, spec, rng, obs):
+    """the misbehaving network of one session (regime = spec["regime"]): a fate per datagram resp. a re-chunking of the byte
+    stream; every fault applied is appended to obs["faults"]; returns whether the transport is a datagram transport"""
+    from sim import quant
+    from nintendo.nex import prudp
+    udp = cs["prudp.transport"] == cs.TRANSPORT_UDP
+    decoder = prudp.PRUDPMessageSelector(cs)
+    def decode(data):
+        try: return decoder.decode(data)
+        except Exception: return []
+    regime = spec["regime"]
+    dropped = set()
+    def fate(tx):
+        pk = decode(tx.data)
+        obs["datagrams"] += 1
+        if any(x.type == 2 and not x.flags & 0x201 and x.fragment_id != 0 for x in pk): obs["fragmented"] += 1
+        base = 0.01
+        r = rng.random()
+        acks = bool(pk) and all(x.flags & 1 for x in pk)
+        what, out = None, [base]
+        if regime == "duplicate" or (regime == "storm" and r < 0.25):
+            if regime == "storm" or rng.random() < 0.4:
+                out = [base] + [base + rng.random() * 0.2 for _ in range(rng.choice([1, 1, 2]))]; what = "delivered %d times" % len(out)
+        elif regime == "reorder" or (regime == "storm" and r < 0.5):
+            if regime == "storm" or rng.random() < 0.5:
+                out = [base + rng.random() * 0.3]; what = "delayed"
+        elif regime == "loss" or (regime == "storm" and r < 0.7):
+            if tx.data not in dropped and (regime == "storm" or rng.random() < 0.3):
+                dropped.add(tx.data); out = []; what = "lost"
+        elif regime == "ack-loss":
+            if acks and tx.data not in dropped and rng.random() < 0.6:
+                dropped.add(tx.data); out = []; what = "lost"
+        if what:
+            obs["faults"].append("t=%.3f #%d %s: %s %s%s" % (tx.t, tx.g, "client->server" if tx.dst == SERVER else "server->client",
+                                 " + ".join(describe(x) for x in pk) or "%d bytes" % len(tx.data), what,
+                                 "" if not out else " (after %s s)" % ", ".join("%.3f" % quant(d) for d in out)))
+        return out
+    def chunker(data):
+        if regime == "clean" or len(data) < 2: return [data]
+        cuts = sorted({rng.randrange(1, len(data)) for _ in range(rng.choice([1, 2, 3, 8]))})
+        out = [data[a:b] for a, b in zip([0] + cuts, cuts + [len(data)])]
+        if len(obs["faults"]) < 40: obs["faults"].append("a write of %d bytes arrives as chunks of %r" % (len(data), [len(x) for x in out]))
+        return out
+    if udp: sim.net.fate = fate
+    else: sim.net.chunker = chunker
+    return udp
+
+
 def run_session(W, spec):
     """runs one session on the real code; returns the observation"""
     import anyio
@@ -179,46 +227,7 @@ def run_session(W, spec):
         sim.install_factories()
         cs, ss = make_settings(spec)
         spec["settings"] = {k: v for k, v in cs.settings.items() if k.startswith(("prudp.", "prudp_v0.", "nex.")) and k != "prudp.access_key"}
-        udp = cs["prudp.transport"] == cs.TRANSPORT_UDP
-        decoder = prudp.PRUDPMessageSelector(cs)
-        def decode(data):
-            try: return decoder.decode(data)
-            except Exception: return []
-        regime = spec["regime"]
-        dropped = set()
-        def fate(tx):
-            pk = decode(tx.data)
-            obs["datagrams"] += 1
-            if any(x.type == 2 and not x.flags & 0x201 and x.fragment_id != 0 for x in pk): obs["fragmented"] += 1
-            base = 0.01
-            r = rng.random()
-            acks = bool(pk) and all(x.flags & 1 for x in pk)
-            what, out = None, [base]
-            if regime == "duplicate" or (regime == "storm" and r < 0.25):
-                if regime == "storm" or rng.random() < 0.4:
-                    out = [base] + [base + rng.random() * 0.2 for _ in range(rng.choice([1, 1, 2]))]; what = "delivered %d times" % len(out)
-            elif regime == "reorder" or (regime == "storm" and r < 0.5):
-                if regime == "storm" or rng.random() < 0.5:
-                    out = [base + rng.random() * 0.3]; what = "delayed"
-            elif regime == "loss" or (regime == "storm" and r < 0.7):
-                if tx.data not in dropped and (regime == "storm" or rng.random() < 0.3):
-                    dropped.add(tx.data); out = []; what = "lost"
-            elif regime == "ack-loss":
-                if acks and tx.data not in dropped and rng.random() < 0.6:
-                    dropped.add(tx.data); out = []; what = "lost"
-            if what:
-                obs["faults"].append("t=%.3f #%d %s: %s %s%s" % (tx.t, tx.g, "client->server" if tx.dst == SERVER else "server->client",
-                                     " + ".join(describe(x) for x in pk) or "%d bytes" % len(tx.data), what,
-                                     "" if not out else " (after %s s)" % ", ".join("%.3f" % quant(d) for d in out)))
-            return out
-        def chunker(data):
-            if regime == "clean" or len(data) < 2: return [data]
-            cuts = sorted({rng.randrange(1, len(data)) for _ in range(rng.choice([1, 2, 3, 8]))})
-            out = [data[a:b] for a, b in zip([0] + cuts, cuts + [len(data)])]
-            if len(obs["faults"]) < 40: obs["faults"].append("a write of %d bytes arrives as chunks of %r" % (len(data), [len(x) for x in out]))
-            return out
-        if udp: sim.net.fate = fate
-        else: sim.net.chunker = chunker
+        udp = install_network(sim, cs, spec, rng, obs)
         creds = None
         if spec["credentials"]:
             from prudp_session import make_credentials
